@@ -423,7 +423,7 @@ class Check:
         if o.replay is not None:  # bounded stand-in witnesses are already concrete
             rec.update(o.replay)
         rp = self.replayers.get(o.name) or self.replayers.get(o.name.split("/path")[0])
-        if rp is not None and o.model is not None:
+        if rp is not None:      # (o.model is None for goals decided without a solver model; such replayers ignore it)
             try:
                 import inspect
                 spec = rp(o.model, fin=getattr(o, "fin", None)) if "fin" in inspect.signature(rp).parameters else rp(o.model)
